@@ -53,6 +53,14 @@ func runSolver(ctx context.Context, sd solverDef, file string, timeoutS, seed in
 	cmd.Run()
 	el := time.Since(start).Seconds()
 	s := out.String()
+	// z3 prints "WARNING: ... 'if' cannot be used in patterns" before the verdict for some append axioms: skip such lines
+	for strings.HasPrefix(s, "WARNING") {
+		i := strings.Index(s, "\n")
+		if i < 0 {
+			break
+		}
+		s = s[i+1:]
+	}
 	first := strings.TrimSpace(strings.SplitN(s, "\n", 2)[0])
 	switch first {
 	case "sat", "unsat", "unknown":
@@ -259,44 +267,56 @@ func (fc *FnCtx) solveAll(o solveOpts, tag string) {
 		}
 		cwg.Wait()
 	}
-	// stragglers
-	var wg sync.WaitGroup
-	sem := make(chan struct{}, 4)
-	for i, ob := range fc.obls {
-		if ob.Result != nil {
-			continue
+	// stragglers: first attempt for all of them; the longer second attempt (different seed) only when few remain —
+	// many undecided obligations mean a real failure, not solver noise
+	want := func(ob *Obligation) string {
+		if ob.Cover {
+			return "sat"
 		}
-		wg.Add(1)
-		go func(i int, ob *Obligation) {
-			defer wg.Done()
-			sem <- struct{}{}
-			defer func() { <-sem }()
-			f := fmt.Sprintf("%s.%d.smt2", base, i)
-			os.WriteFile(f, []byte(fc.renderOne(ob, true)), 0o644)
-			res := raceSolvers(f, o.quickS, o.seed, "")
-			want := "unsat"
-			if ob.Cover {
-				want = "sat"
-			}
-			if ob.Cover && res.Verdict != "unsat" {
-				// vacuity probe: anything but a refutation passes (quantified backgrounds rarely yield models)
-				res.Attempts = append(res.Attempts, "cover: not refuted ("+res.Verdict+")")
-				res.Verdict = "sat"
-			}
-			if res.Verdict != want && res.Verdict != "sat" && res.Verdict != "unsat" {
-				// undecided: retry once with a different seed and a doubled timeout
-				r2 := raceSolvers(f, o.retryS, o.seed+7919, "")
-				r2.Attempts = append(res.Attempts, r2.Attempts...)
-				res = r2
-			}
-			ob.Result = res
-			if res.Verdict == want && !o.keep {
-				os.Remove(f)
-			} else {
-				ob.Result.Raw = strings.TrimSpace(ob.Result.Raw)
-				ob.Known = f
-			}
-		}(i, ob)
+		return "unsat"
 	}
-	wg.Wait()
+	attempt := func(timeoutS, seed int, only map[*Obligation]bool) {
+		var wg sync.WaitGroup
+		sem := make(chan struct{}, 4)
+		for i, ob := range fc.obls {
+			if ob.Result != nil && !only[ob] {
+				continue
+			}
+			wg.Add(1)
+			go func(i int, ob *Obligation) {
+				defer wg.Done()
+				sem <- struct{}{}
+				defer func() { <-sem }()
+				f := fmt.Sprintf("%s.%d.smt2", base, i)
+				os.WriteFile(f, []byte(fc.renderOne(ob, true)), 0o644)
+				res := raceSolvers(f, timeoutS, seed, "")
+				if ob.Cover && res.Verdict != "unsat" {
+					// vacuity probe: anything but a refutation passes (quantified backgrounds rarely yield models)
+					res.Attempts = append(res.Attempts, "cover: not refuted ("+res.Verdict+")")
+					res.Verdict = "sat"
+				}
+				if ob.Result != nil {
+					res.Attempts = append(ob.Result.Attempts, res.Attempts...)
+				}
+				ob.Result = res
+				if res.Verdict == want(ob) && !o.keep {
+					os.Remove(f)
+				} else {
+					ob.Result.Raw = strings.TrimSpace(ob.Result.Raw)
+					ob.Known = f
+				}
+			}(i, ob)
+		}
+		wg.Wait()
+	}
+	attempt(o.quickS, o.seed, map[*Obligation]bool{})
+	undecided := map[*Obligation]bool{}
+	for _, ob := range fc.obls {
+		if ob.Result != nil && ob.Result.Verdict != want(ob) && ob.Result.Verdict != "sat" && ob.Result.Verdict != "unsat" {
+			undecided[ob] = true
+		}
+	}
+	if n := len(undecided); n > 0 && n <= 3 {
+		attempt(o.retryS, o.seed+7919, undecided)
+	}
 }
